@@ -123,7 +123,8 @@ def _dwarf(ctx, data, follow, peers, max_dies):
     d = {}
     d['sec_sizes'] = {}
     for nm in ('debug_info_sec', 'debug_types_sec', 'debug_str_sec', 'debug_line_str_sec', 'debug_abbrev_sec',
-               'debug_loc_sec', 'debug_loclists_sec', 'debug_ranges_sec', 'debug_rnglists_sec', 'debug_line_sec'):
+               'debug_loc_sec', 'debug_loclists_sec', 'debug_ranges_sec', 'debug_rnglists_sec', 'debug_line_sec',
+               'debug_addr_sec'):
         desc = getattr(dw, nm, None)
         d['sec_sizes'][nm] = None if desc is None else desc.size
     units = _try(lambda: list(dw.iter_CUs()))
